@@ -22,19 +22,20 @@ import (
 // Case is one render call. It is the JSON document cmd/faultchild consumes and
 // the replay format of props/c12.
 type Case struct {
-	Sink     string `json:"sink"`            // stl 3mf tri | dxf svg
-	Renderer string `json:"renderer"`        // scripted | mcu mco | msu msq dc2
-	N        int    `json:"n"`               // scripted: number of items emitted
-	Chunk    int    `json:"chunk"`           // scripted: items per Write call (<=0: all in one call)
-	Cells    int    `json:"cells"`           // real renderers: meshCells
-	Shape    string `json:"shape"`           // real renderers: sphere box cyl | circle box2
-	Path     string `json:"path"`            // output path handed to the library
-	Fsize    int64  `json:"fsize"`           // child only: RLIMIT_FSIZE in bytes, <0 = unlimited
-	Uid      int    `json:"uid"`             // child only: >0 = drop to this uid/gid before rendering
-	Keep     bool   `json:"keep"`            // child only: keep a sleeping goroutine alive (defeats the runtime deadlock detector)
-	Fault    string `json:"fault"`           // informational: fault class chosen by the generator
-	Procs    int    `json:"procs,omitempty"` // parent only: GOMAXPROCS in the child's environment (0 = not set)
-	CPUs     int    `json:"cpus,omitempty"`  // parent only: the child is confined to this many CPUs, runtime.NumCPU() == CPUs (0 = all)
+	Sink     string `json:"sink"`               // stl 3mf tri | dxf svg
+	Renderer string `json:"renderer"`           // scripted | mcu mco | msu msq dc2
+	N        int    `json:"n"`                  // scripted: number of items emitted
+	Chunk    int    `json:"chunk"`              // scripted: items per Write call (<=0: all in one call)
+	Cells    int    `json:"cells"`              // real renderers: meshCells
+	Shape    string `json:"shape"`              // real renderers: sphere box cyl | circle box2
+	Path     string `json:"path"`               // output path handed to the library
+	Fsize    int64  `json:"fsize"`              // child only: RLIMIT_FSIZE in bytes, <0 = unlimited
+	Uid      int    `json:"uid"`                // child only: >0 = drop to this uid/gid before rendering
+	Keep     bool   `json:"keep"`               // child only: keep a sleeping goroutine alive (defeats the runtime deadlock detector)
+	Fault    string `json:"fault"`              // informational: fault class chosen by the generator
+	PauseMs  int    `json:"pause_ms,omitempty"` // child only: after the render the process idles this long and renders the same case again
+	Procs    int    `json:"procs,omitempty"`    // parent only: GOMAXPROCS in the child's environment (0 = not set)
+	CPUs     int    `json:"cpus,omitempty"`     // parent only: the child is confined to this many CPUs, runtime.NumCPU() == CPUs (0 = all)
 }
 
 // Is3D reports whether the sink takes triangles.
